@@ -393,6 +393,186 @@ func menu(w *world) []op {
 	return ops
 }
 
+// ---- the long family ----
+// The breadth-first search above starts from literals of length <= 5; implementations switch algorithm with the
+// size and the order of their input (insertion sort below 12 elements, "already sorted except the last
+// element" fast paths, maps instead of scans, growth policies of append).  The long family takes roots of
+// length 9..65 (thorough: ..257) in 7 orders and 3 storage shapes and explores every sequence of two (thorough,
+// for the smaller sizes: three) calls over a reduced menu, keeping EVERY produced value live.
+
+var longOrders = []string{"ascending", "descending", "zigzag", "ascending-last-smallest", "ascending-first-largest", "all-equal", "two-values"}
+var longStorage = []string{"exact", "spare-capacity", "window"}
+
+func longRoot(n, order, storage int) ([]int, string) {
+	c := make([]int, n)
+	for i := range c {
+		switch order {
+		case 0, 3, 4:
+			c[i] = 10 * (i + 1)
+		case 1:
+			c[i] = 10 * (n - i)
+		case 2:
+			if i%2 == 0 {
+				c[i] = 10 * (i/2 + 1)
+			} else {
+				c[i] = 10 * (n - i/2)
+			}
+		case 5:
+			c[i] = 50
+		case 6:
+			c[i] = 10 + 10*(i%2)
+		}
+	}
+	if order == 3 {
+		c[n-1] = 5
+	}
+	if order == 4 {
+		c[0] = 10*n + 5
+	}
+	var s []int
+	switch storage {
+	case 0:
+		s = append(make([]int, 0, n), c...)
+	case 1:
+		s = append(make([]int, 0, n+3), c...) // three spare cells, as after PopLast / append growth
+	case 2:
+		big := make([]int, n+5)
+		for i := range big {
+			big[i] = 7777 + i
+		}
+		copy(big[2:], c)
+		s = big[2 : 2+n] // a window: cells before it, spare capacity behind it
+	}
+	return s, fmt.Sprintf("long root: %d elements, %s, storage %s", n, longOrders[order], longStorage[storage])
+}
+
+func menuLong(w *world) []op {
+	var ops []op
+	k := len(w.group)
+	for m := 0; m < k; m++ {
+		for _, f := range unaryFns {
+			ops = append(ops, op{fn: f, m: m, other: -1})
+		}
+		ln := len(w.group[m].s)
+		seenN := map[int]bool{}
+		for _, n := range []int{0, 1, ln / 2, ln - 1, ln} {
+			if n < 0 || n > ln || seenN[n] {
+				continue
+			}
+			seenN[n] = true
+			ops = append(ops, op{fn: "Take", m: m, other: -1, n: n})
+			ops = append(ops, op{fn: "Skip", m: m, other: -1, n: n})
+		}
+		for _, f := range binaryFns {
+			for o := 0; o < k; o++ {
+				ops = append(ops, op{fn: f, m: m, other: o})
+			}
+			for _, l := range []int{0, 2} {
+				ops = append(ops, op{fn: f, m: m, other: 100 + l})
+				ops = append(ops, op{fn: f, m: m, other: 100 + l, swap: true})
+			}
+		}
+	}
+	return ops
+}
+
+func longPhase(sizes []int, depth3 map[int]bool) {
+	var states, trans int64
+	for _, n := range sizes {
+		for order := range longOrders {
+			for storage := range longStorage {
+				mk := func(hist []op) *world {
+					s, how := longRoot(n, order, storage)
+					w := &world{root: 1000 + n}
+					w.group = []*val{{s: s, want: append([]int{}, s...), how: how}}
+					for _, o := range hist {
+						res, isSlice, ok, _ := w.apply(o)
+						if !ok {
+							panic(fmt.Sprintf("long replay diverged: %v", o))
+						}
+						if isSlice {
+							w.group = append(w.group, &val{s: res, want: append([]int{}, res...), how: o.String()})
+						}
+					}
+					return w
+				}
+				_, how := longRoot(n, order, storage)
+				var rec func(hist []op, left int)
+				rec = func(hist []op, left int) {
+					if rep.TooMany() {
+						return
+					}
+					w0 := mk(hist)
+					states++
+					for _, o := range menuLong(w0) {
+						w := mk(hist)
+						res, isSlice, ok, operands := w.apply(o)
+						if !ok {
+							continue
+						}
+						trans++
+						rep.Trans++
+						rep.Evals++
+						rep.Validated++
+						rep.H("long:fn:"+o.fn, 1)
+						bad := ""
+						for i, g := range w.group {
+							if !eq(g.s, g.want) {
+								bad = fmt.Sprintf("value m%d (produced by %s) changed at %s", i, g.how, firstDiff(g.want, g.s))
+								break
+							}
+						}
+						if bad == "" {
+							for i, p := range operands {
+								if !eq(p[0], p[1]) {
+									bad = fmt.Sprintf("operand %d changed at %s", i, firstDiff(p[1], p[0]))
+								}
+							}
+						}
+						h := append(append([]op{}, hist...), o)
+						hs := how
+						for _, x := range h {
+							hs += " ; " + x.String()
+						}
+						if bad != "" {
+							rep.O("mutated")
+							rep.V("C12:"+o.fn, fmt.Sprintf("slice.%s changed an existing slice value: %s; history: %s", o.fn, bad, hs),
+								map[string]any{"root": how, "history": hs, "observed": bad})
+							continue
+						}
+						rep.O("intact")
+						if isSlice && left > 1 {
+							_ = res
+							rec(h, left-1)
+						}
+					}
+				}
+				d := 2
+				if depth3[n] {
+					d = 3
+				}
+				rec(nil, d)
+				rep.Distinct++
+				rep.Nontrivial++
+			}
+		}
+	}
+	rep.States += states
+	rep.Extra["long_family"] = map[string]any{"sizes": sizes, "orders": longOrders, "storage": longStorage, "histories_extended": states, "transitions": trans}
+}
+
+func firstDiff(want, got []int) string {
+	if len(want) != len(got) {
+		return fmt.Sprintf("length %d -> %d", len(want), len(got))
+	}
+	for i := range want {
+		if want[i] != got[i] {
+			return fmt.Sprintf("index %d: %d -> %d", i, want[i], got[i])
+		}
+	}
+	return "?"
+}
+
 func histString(root int, hist []op) string {
 	parts := []string{fmt.Sprintf("root%d", root)}
 	for _, o := range hist {
@@ -512,6 +692,13 @@ func main() {
 			completed = d + 1
 		}
 		frontier = next
+	}
+	if !rep.TooMany() {
+		if len(os.Args) > 1 && os.Args[1] == "thorough" {
+			longPhase([]int{9, 12, 13, 16, 17, 33, 50, 65, 129, 257}, map[int]bool{9: true, 13: true, 17: true})
+		} else {
+			longPhase([]int{9, 13, 17, 33, 65}, nil)
+		}
 	}
 	rep.Extra["depth_completed"] = completed
 	rep.Extra["depth_bound"] = depth
